@@ -661,6 +661,33 @@ class SqfsImage:
                 ev.append({"e": "DirIndex", "dir": ino["num"], "points_at_header": at_hdr,
                            "name_matches": first == ix["name"], "block_matches": blk_ok, "header_straddles": straddles})
             ev.append({"e": "DirEnd", "dir": ino["num"]})
+        # the index tables (lists of metadata block locations) and what follows them: a reader that validates the image computes each
+        # list's length from the entry count and demands that it ends exactly where the next structure starts (Linux: id, inode lookup,
+        # fragment and xattr id tables; "the computed size of the index table should exactly match the table start and end points")
+        lay = {"e": "IndexLayout"}
+        nxt = s["bytes_used"]
+        if s["xattr_tbl"] != INVALID64 and self.xattr_kv_start is not None:
+            lay["xattr_exact"] = s["xattr_tbl"] + 16 + 8 * len(self.xattr_id_locs) == nxt
+            lay["xattr_ascending"] = all(a < b for a, b in zip(self.xattr_id_locs, self.xattr_id_locs[1:])) and \
+                all(self.xattr_kv_start <= x < s["xattr_tbl"] for x in self.xattr_id_locs)
+            nxt = self.xattr_kv_start
+        else:
+            lay["xattr_exact"] = lay["xattr_ascending"] = True
+        lay["id_exact"] = s["id_tbl"] + 8 * len(self.id_locs) == nxt
+        lay["id_ascending"] = all(a < b for a, b in zip(self.id_locs, self.id_locs[1:]))
+        nxt = self.id_locs[0] if self.id_locs else s["id_tbl"]
+        if self.exports is not None and self.export_locs:
+            lay["export_exact"] = s["export_tbl"] + 8 * len(self.export_locs) == nxt
+            lay["export_ascending"] = all(a < b for a, b in zip(self.export_locs, self.export_locs[1:]))
+            nxt = self.export_locs[0]
+        else:
+            lay["export_exact"] = lay["export_ascending"] = True
+        if self.frag_locs:
+            lay["frag_exact"] = s["frag_tbl"] + 8 * len(self.frag_locs) == nxt
+            lay["frag_ascending"] = all(a < b for a, b in zip(self.frag_locs, self.frag_locs[1:]))
+        else:
+            lay["frag_exact"] = lay["frag_ascending"] = True
+        ev.append(lay)
         ev.append({"e": "IdTable", "count": len(self.ids), "nblocks": len(self.id_locs)})
         if self.exports is not None:
             good = 0
